@@ -228,4 +228,85 @@ theorem insertElement_spec (k : Nat) (full : Bool) (sh : Shape) (s : St) (L : Li
   · right
     exact ⟨trivial, trivial, h2.mono (by omega), h3⟩
 
+-- ---------------------------------------------------------------------------------------------------------------
+-- cif_value_set_element_at: clone into an existing target
+
+/-- `cloneExisting`: either every request succeeds and exactly the gained blocks are added to `L`, or the fault position
+    is hit and everything obtained so far is released exactly once (the target object is not touched) -/
+theorem cloneExisting_spec (k : Nat) : ∀ (sh : Shape) (s : St) (L : List Nat), Inv s L →
+    (∃ g, (cloneExisting k sh s).1 = some g ∧ Good k (allocs sh) s (cloneExisting k sh s).2 ∧
+        Inv (cloneExisting k sh s).2 (g ++ L)) ∨
+    ((cloneExisting k sh s).1 = none ∧ Bad k (allocs sh) s (cloneExisting k sh s).2 ∧ Inv (cloneExisting k sh s).2 L)
+  | .scalar, s, L, h => by
+    left
+    simp only [cloneExisting, allocs]
+    exact ⟨_, rfl, Good.refl k s, h⟩
+  | .chr, s, L, h => by
+    simp only [cloneExisting, allocs]
+    rcases alloc_cases k s with ⟨hk, ha⟩ | ⟨hk, ha⟩ <;> simp only [ha]
+    · right
+      exact ⟨trivial, Bad.alloc hk, h.fail⟩
+    · left
+      exact ⟨_, rfl, Good.alloc hk, h.alloc⟩
+  | .numb hasSu, s, L, h => by
+    simp only [cloneExisting, allocs]
+    rcases alloc_cases k s with ⟨hk, ha⟩ | ⟨hk, ha⟩ <;> simp only [ha]
+    · right
+      exact ⟨trivial, (Bad.alloc hk).mono (by split <;> omega), h.fail⟩
+    · have g1 := Good.alloc hk
+      have i1 := h.alloc
+      generalize ({ count := s.count + 1, evs := s.evs ++ [.alloc (s.count + 1)] } : St) = s1 at g1 i1 ⊢
+      generalize s.count + 1 = t at g1 i1 ⊢
+      rcases alloc_cases k s1 with ⟨hk, ha⟩ | ⟨hk, ha⟩ <;> simp only [ha]
+      · right
+        exact ⟨trivial, g1.bad' ((Bad.alloc hk).free _) (by split <;> omega), Inv.free i1.fail⟩
+      · have g2 := g1.trans (Good.alloc hk)
+        have i2 := i1.alloc
+        generalize ({ count := s1.count + 1, evs := s1.evs ++ [.alloc (s1.count + 1)] } : St) = s2 at g2 i2 ⊢
+        generalize s1.count + 1 = d at g2 i2 ⊢
+        cases hasSu with
+        | false =>
+          left
+          exact ⟨_, rfl, g2, i2.perm (by perm_ac)⟩
+        | true =>
+          simp only [if_true]
+          rcases alloc_cases k s2 with ⟨hk, ha⟩ | ⟨hk, ha⟩ <;> simp only [ha]
+          · right
+            exact ⟨trivial, g2.bad' (((Bad.alloc hk).free _).free _) (by omega), Inv.free (Inv.free i2.fail)⟩
+          · left
+            exact ⟨_, rfl, g2.trans (Good.alloc hk), i2.alloc.perm (by perm_ac)⟩
+  | .lst es, s, L, h => by
+    simp only [cloneExisting, allocs]
+    rcases alloc_cases k s with ⟨hk, ha⟩ | ⟨hk, ha⟩ <;> simp only [ha]
+    · right
+      exact ⟨trivial, (Bad.alloc hk).mono (by omega), h.fail⟩
+    · have g1 := Good.alloc hk
+      have i1 := h.alloc
+      generalize ({ count := s.count + 1, evs := s.evs ++ [.alloc (s.count + 1)] } : St) = s1 at g1 i1 ⊢
+      generalize s.count + 1 = arr at g1 i1 ⊢
+      have hh := cloneElems_spec k es [] s1 (arr :: L) (by simpa [Owned.idsList] using i1)
+      generalize cloneElems k es [] s1 = r at hh ⊢
+      obtain ⟨ro, rs⟩ := r
+      rcases hh with ⟨os, h1, h2, h3⟩ | ⟨h1, h2, h3⟩ <;> simp only at h1 h2 h3 <;> subst h1 <;> simp only
+      · left
+        exact ⟨_, rfl, g1.trans h2, h3.perm (by perm_ac)⟩
+      · right
+        exact ⟨trivial, g1.bad' (h2.free _) (by omega), h3.free⟩
+
+/-- `cif_value_set_element_at`, from any consistent state -/
+theorem setElement_spec (k : Nat) (sh : Shape) (s : St) (L : List Nat) (h : Inv s L) :
+    (∃ g, (setElement k sh s).1 = OK ∧ (setElement k sh s).2.1 = some g ∧
+        Good k (allocs sh) s (setElement k sh s).2.2 ∧ Inv (setElement k sh s).2.2 (g ++ L)) ∨
+    ((setElement k sh s).1 = MEMORY_ERROR ∧ (setElement k sh s).2.1 = none ∧
+        Bad k (allocs sh) s (setElement k sh s).2.2 ∧ Inv (setElement k sh s).2.2 L) := by
+  simp only [setElement]
+  have hh := cloneExisting_spec k sh s L h
+  generalize cloneExisting k sh s = r at hh ⊢
+  obtain ⟨ro, rs⟩ := r
+  rcases hh with ⟨g, h1, h2, h3⟩ | ⟨h1, h2, h3⟩ <;> simp only at h1 h2 h3 <;> subst h1 <;> simp only
+  · left
+    exact ⟨g, by trivial, by trivial, h2, h3⟩
+  · right
+    exact ⟨by trivial, by trivial, h2, h3⟩
+
 end CifModel.Lemmas.Ladder
